@@ -1,4 +1,5 @@
 import BM.Props.C11b
+import BM.Props.C20e
 import BM.Props.SrcPin.C11
 /- Top module of property C11: its theorems (BM.Props.C11b) and the statement of which units of /repo's
    source its model and proofs were written against (BM/Props/SrcPin/C11.lean, re-checked against the
